@@ -614,7 +614,96 @@ def impl():
         im.close()
 
 
+def suite_pings(ctx):
+    """the endpoint's own housekeeping traffic must not disturb the clauses: StartPingCheck packets (answered by the region's
+    coroutine handler with a CompletePingCheck) with any OldestUnacked, interleaved with reliable arrivals and their duplicates.
+    Impl-level oracle (no model): every reliable reception is acked exactly once, every reliable id is delivered to each observer
+    exactly once (the real window of 1000 is never reached), however pings fall in between."""
+    res = CorrResult(suite="reliable arrivals interleaved with StartPingCheck housekeeping (impl-level oracle)",
+                     rule="EVERY sequence up to length %d over {reliable ChatFromSimulator id 1,2,3; StartPingCheck with OldestUnacked "
+                          "0, 2, 9} on the real configuration (window 1000), the event loop run after every datagram so that coroutine "
+                          "handlers execute: one PacketAck per reliable reception, each reliable id delivered to each of the six observers "
+                          "exactly once" % ctx.pick(4, 5))
+    n = nt = 0
+    seen = set()
+    letters = [("R", 1), ("R", 2), ("R", 3), ("P", 0), ("P", 2), ("P", 9)]
+    with impl() as im:
+        M, B = im.Message, im.Block
+        for k in range(1, ctx.pick(4, 5) + 1):
+            for seq in itertools.product(letters, repeat=k):
+                if not any(x[0] == "R" for x in seq):
+                    continue
+                n += 1
+                if any(x[0] == "P" for x in seq):
+                    nt += 1
+                im.new_circuit((W_REAL, T_REAL, E_REAL))
+                delivered = collections.Counter()
+                ping_id = 0
+                bad = None
+                for i, (kind, arg) in enumerate(seq):
+                    im.log = []
+                    if kind == "R":
+                        msg = M("ChatFromSimulator", B("ChatData", fill_missing=True))
+                        msg.packet_id = arg
+                        msg.send_flags |= im.PacketFlags.RELIABLE
+                    else:
+                        ping_id += 1
+                        msg = M("StartPingCheck", B("PingID", PingID=ping_id % 256, OldestUnacked=arg))
+                        msg.packet_id = 5000 + ping_id
+                    try:
+                        data = im.ser.serialize(msg)
+
+                        async def go():
+                            # inside a running loop, as in production: coroutine handlers are scheduled as tasks
+                            im.proto.datagram_received(data, ADDR)
+                            for _ in range(4):
+                                await asyncio.sleep(0)
+                        im.loop.run_until_complete(go())
+                    except Exception as ex:   # noqa
+                        bad = ("no exception escapes datagram_received", "raised-" + type(ex).__name__, i)
+                        break
+                    if kind != "R":
+                        continue
+                    acks = 0
+                    for item in im.log:
+                        if item[0] == "pkt":
+                            try:
+                                m = im.de.deserialize(item[1])
+                                if m.name == "PacketAck":
+                                    acks += [b["ID"] for b in m["Packets"]].count(arg)
+                            except Exception:
+                                pass
+                        elif item[0] == "dsp" and item[3] == arg:
+                            delivered[(item[1], item[2], arg)] += 1
+                    if acks != 1:
+                        bad = ("every received reliable packet is acknowledged by exactly one PacketAck carrying its id",
+                               "reliable packet not acked exactly once", i)
+                        break
+                    for lvl in ("S", "R"):
+                        for tag in SUB_TAGS:
+                            if delivered[(lvl, tag, arg)] != 1:
+                                bad = ("a reliable packet's message is delivered to each subscriber exactly once however many times it is "
+                                       "retransmitted (within the dedupe window)",
+                                       "retransmitted reliable packet delivered again" if delivered[(lvl, tag, arg)] > 1 else "reliable packet never delivered", i)
+                                break
+                        if bad:
+                            break
+                    if bad:
+                        break
+                if bad and bad[1] not in seen:
+                    seen.add(bad[1])
+                    res.impl_violations.append({"clause": bad[0], "class": bad[1], "step": bad[2],
+                                                "sequence": ["%s%d" % x for x in seq], "kind": "pings"})
+    res.evaluations = n
+    res.distinct_nontrivial = nt
+    return res
+
+
 def correspond(ctx):
+    return [_correspond(ctx), suite_pings(ctx)]
+
+
+def _correspond(ctx):
     res = CorrResult(
         suite="client circuit: real HippoClientProtocol/Session/Region/Circuit vs extracted model, step by step",
         rule="corpus + structured cases (retry budget and 3.0 s cadence on the real configuration, both ack forms, eviction of the real "
@@ -702,6 +791,12 @@ def search(ctx, hints):
 
 
 def replay(ctx, case):
+    if case.get("kind") == "pings" or "case" not in case:
+        r = suite_pings(ctx)
+        for v in r.impl_violations:
+            if v.get("class") == case.get("class"):
+                return True, v
+        return (True, r.impl_violations[0]) if r.impl_violations else (False, "holds")
     cfg, ev = parse_case(case["case"])
     with impl() as im:
         v = oracle(cfg, ev, im.run(cfg, ev))
